@@ -61,7 +61,11 @@ IdealOverlap(meas, t, n, m) ==
 PrefixAdmissible(meas, t, n, v)     == v >= IdealPrefix(meas, t, n)
 SizeLBAdmissible(meas, t, n, v)     == v <= IdealSizeLB(meas, t, n)
 SizeUBAdmissible(meas, t, n, v)     == v >= Min2(IdealSizeUB(meas, t, n), BigSize)
-OverlapAdmissible(meas, t, n, m, v) == v <= IdealOverlap(meas, t, n, m)
+OverlapAdmissible(meas, t, n, m, v) ==
+  IF meas = "COSINE"
+  THEN (* v <= smallest a with a^2 q^2 >= p^2 n m  <=>  (v-1)^2 q^2 < p^2 n m *)
+       v <= 0 \/ BigCmp(BigProd(<<v - 1, v - 1, t[2], t[2]>>), BigProd(<<t[1], t[1], n, m>>)) < 0
+  ELSE v <= IdealOverlap(meas, t, n, m)
 
 (* C14 tightness of the size window: a partner size m whose best attainable *)
 (* similarity with a set of size n is more than 10^-4 below the threshold   *)
